@@ -146,6 +146,11 @@ func (c *ServerChannel) sendEstablishedSession(ctx context.Context, node Node) e
 		return fmt.Errorf("cannot establish the session in the %v state", c.state)
 	}
 
+	// Senders check the state and then queue up on sendMu: holding it from the state
+	// change until the envelope is out keeps data from overtaking the established session.
+	c.sendMu.Lock()
+	defer c.sendMu.Unlock()
+
 	c.setState(SessionStateEstablished)
 
 	c.remoteNode = node
